@@ -354,6 +354,7 @@ def run_U(case):
   return {'v': [float(x) for x in v32.astype(np.float64)], 'lo': [float(x) for x in lo], 'hi': [float(x) for x in hi],
           'at0': [float(x) for x in at0], 'gstar': gstar, 'monotone': monotone, 'two_valued': two_valued,
           'finite': bool(np.all(np.isfinite(outs)) and np.all(np.isfinite(real))), 'real_ok': real_ok,
+          'real': [float(x) for x in real],
           'n_out': int(outs.shape[1])}
 
 
@@ -967,6 +968,8 @@ def _check_sweep(out, tag, levels, obs, G, scale, u0_tag=None, vmin_f=0.0, vmax_
     is_l = lambda o: abs(o - l) <= tol
     is_h = lambda o: abs(o - h) <= tol
     two = abs(h - l) > tol
+    if 'real' in obs and i < len(obs['real']) and not (is_l(obs['real'][i]) or is_h(obs['real'][i])):
+      out.append((tag + 'level-membership', f'coordinate {i}: a real draw gave {obs["real"][i]}, not one of the levels {l}, {h}'))
     # u = 0 exactly: must give the upper level when t > 0 and the value itself when t = 0
     if u0_tag and t == 0 and is_l(a0) is False and abs(l - vmin_f) <= tol and abs(a0 - vmax_f) <= tol:
       out.append((u0_tag, f'coordinate {i} equals the minimum {l}; with the uniform draw u = 0 it is output as the maximum '
@@ -1002,8 +1005,8 @@ def _oracle_U(case, obs):
   if obs['n_out'] != len(v) or not obs['finite']:
     out.append(('not-finite', 'quantizer produced NaN/Inf or a wrong number of coordinates'))
     return out
-  if not obs['two_valued'] or not obs['real_ok']:
-    out.append(('level-membership', 'some draw produced a value that is neither of the two levels seen at u=0 and u->1'))
+  if not obs['two_valued']:
+    out.append(('level-membership', 'some swept draw produced a value that is neither of the two levels seen at u=1/G and u=(G-1)/G'))
   if not obs['monotone']:
     out.append(('threshold-direction', 'output is not (upper level for u <= t, lower level for u > t)'))
   if fn in ('usq', 'bsq'):
